@@ -10,6 +10,7 @@ import (
 	"github.com/csgura/fp/lazy"
 	"github.com/csgura/fp/list"
 	"github.com/csgura/fp/monoid"
+	"github.com/csgura/fp/seq"
 
 	"verifharness/kit"
 )
@@ -429,6 +430,12 @@ func TestListPkg(t *testing.T) {
 	comb(t, "list.Max", uXS|uLK, "Max = largest element or None.",
 		func(e *env) any { return optS(list.Max(e.li(e.xs), intOrd)) },
 		func(e *env) any { return refMinMax(e.xs, true) })
+	comb(t, "list.Min/tied-keys", uXS|uLK, "Records (key = x mod 3, position) ordered by key only: list.Min returns the same record as seq.Min over the same records.",
+		func(e *env) any { return show(list.Min(list.Map(e.li(positions(e.xs)), recAt(e.xs)), keyOrd)) },
+		func(e *env) any { return show(seq.Min(records(e.xs), keyOrd)) })
+	comb(t, "list.Max/tied-keys", uXS|uLK, "Records (key = x mod 3, position) ordered by key only: list.Max returns the same record as seq.Max over the same records.",
+		func(e *env) any { return show(list.Max(list.Map(e.li(positions(e.xs)), recAt(e.xs)), keyOrd)) },
+		func(e *env) any { return show(seq.Max(records(e.xs), keyOrd)) })
 }
 
 // takeCells reads the first n cells of a (possibly unbounded) list.
